@@ -32,6 +32,8 @@ type hostileReq struct {
 	Data   []byte `json:"data"`
 	// file target: operations after a successful Open
 	Now int64 `json:"now,omitempty"`
+	// http targets: Content-Length the hostile server announces (0 = the true length)
+	Claim int64 `json:"claim,omitempty"`
 }
 
 type hostileResp struct {
@@ -59,6 +61,7 @@ var hostileSeq int
 var (
 	hostilePayloadMu sync.Mutex
 	hostilePayload   []byte
+	hostileClaim     int64
 	hostileServer    *httptest.Server
 )
 
@@ -67,7 +70,23 @@ func hostileURL() string {
 		hostileServer = httptest.NewServer(http.HandlerFunc(func(w http.ResponseWriter, r *http.Request) {
 			hostilePayloadMu.Lock()
 			p := hostilePayload
+			claim := hostileClaim
 			hostilePayloadMu.Unlock()
+			if claim != 0 {
+				body := p
+				if r.URL.Path == "/items" || r.URL.Path == "/files" {
+					body = []byte("item1\n")
+				}
+				if hj, ok := w.(http.Hijacker); ok {
+					if conn, rw, err := hj.Hijack(); err == nil {
+						fmt.Fprintf(rw, "HTTP/1.1 200 OK\r\nContent-Type: application/octet-stream\r\nContent-Length: %d\r\nConnection: close\r\n\r\n", claim)
+						rw.Write(body)
+						rw.Flush()
+						conn.Close()
+						return
+					}
+				}
+			}
 			if r.URL.Path == "/items" || r.URL.Path == "/files" {
 				w.Header().Set("Content-Type", "text/plain")
 				io.WriteString(w, "item1\n")
@@ -214,6 +233,23 @@ func execHostile(req hostileReq, dir string) (resp hostileResp) {
 				return
 			}
 		}
+		// a run of updates one step apart in every archive (every alignment of a point relative to the coarser
+		// archives' slots), each propagating upward
+		for a := 0; a < n && a < 6; a++ {
+			a := a
+			st := int64(db.ArchiveInfoList()[a].SecondsPerPoint())
+			if st <= 0 || st > 1<<20 {
+				continue
+			}
+			for k := int64(0); k < 12; k++ {
+				k := k
+				if !try(fmt.Sprintf("UpdatePointForArchive(%d, now-%d steps)", a, 11-k), func() {
+					db.UpdatePointForArchive(a, wt.Timestamp(now-(11-k)*st), wt.Value(float64(k)), wt.Timestamp(now))
+				}) {
+					return
+				}
+			}
+		}
 		// reads and writes right around each archive's stored base interval (the first slot), at clocks
 		// near it: a damaged base interval must not crash slot addressing
 		if h, herr := ParseWspHeader(req.Data); herr == nil {
@@ -255,6 +291,7 @@ func execHostile(req hostileReq, dir string) (resp hostileResp) {
 		url := hostileURL()
 		hostilePayloadMu.Lock()
 		hostilePayload = req.Data
+		hostileClaim = req.Claim
 		hostilePayloadMu.Unlock()
 		var c cmd.Command
 		switch req.Target {
